@@ -46,7 +46,7 @@ from .device import ( Object, Attribute,
                       resolve_element, resolve_tag, resolve, redirect_tag, lookup )
 from . import ucmm
 from .parser import ( BOOL, ULINT, LINT, UDINT, DINT, UINT, INT, USINT, SINT, STRUCT, STRING,
-                      LREAL, REAL, EPATH, typed_data, octets_encode,
+                      LREAL, REAL, EPATH, TYPE, typed_data, octets_encode,
                       move_if, octets_drop, octets_noop, enip_format, status )
 
 log				= logging.getLogger( "enip.lgx" )
@@ -401,6 +401,12 @@ class Logix( Message_Router ):
                     attribute.parser.tag_type, (attribute.parser.tag_type,) ), \
                     "Tag type %d in request doesn't fit within Attribute type %d" % ( 
                         data[context].type, attribute.parser.tag_type )
+                # Each value must also be representable in the Attribute's own type (eg. a USINT
+                # 200 does not fit in a SINT); otherwise, the Attribute could no longer be produced,
+                # and every subsequent read would fail after this write was acknowledged.
+                if isinstance( attribute.parser, TYPE ):
+                    for value in data[context].data:
+                        attribute.parser.produce( value )
             else:
                 raise AssertionError( "Unhandled Service Reply" )
 
